@@ -374,9 +374,11 @@ theorem C03_event_frame (cfg : Cfg) {srv : Server} (h : srv.WF) (ev : Event) {x 
     split
     · exact quiet
     · rename_i k _
+      have hb : (srv.beforeDispatch k r).1.WF := Server.beforeDispatch_WF h k r
+      have hx' : x ∈ (srv.beforeDispatch k r).1.sessions := by simpa using hx
       split
       · exact ⟨by simpa [Server.setConn] using hx, fun d hd => by cases hd⟩
-      · exact disconnect_frame cfg h c hx hcx
+      · exact disconnect_frame cfg hb c hx' hcx
   | handle c pick hint =>
     have hcx := hout c (Or.inr (Or.inr ⟨pick, hint, rfl⟩))
     simp only [step]
